@@ -15,11 +15,12 @@ lines = []
 for fd in F["findings"]:
     for prop in fd.get("properties", props):
         for k, r in enumerate(fd["repros"]):
-            case = {"src": r["src"], "cfg": {"width": r.get("width", 80), "tab": r.get("tab", 2), "reorder": r.get("reorder", False)}, "origin": fd["id"]}
-            if "range" in r:
-                case["range"] = r["range"]
             if "case" in r:
                 case = r["case"]
+            else:
+                case = {"src": r["src"], "cfg": {"width": r.get("width", 80), "tab": r.get("tab", 2), "reorder": r.get("reorder", False)}, "origin": fd["id"]}
+                if "range" in r:
+                    case["range"] = r["range"]
             os.makedirs(f"{ROOT}/regress/{prop}", exist_ok=True)
             path = f"{ROOT}/regress/{prop}/known-{fd['id']}.json"
             json.dump({"property": prop, "expect": f"known:{fd['id']}", "case": case}, open(path, "w"), ensure_ascii=False)
